@@ -366,3 +366,64 @@ pub fn run(ctx: &Ctx, prop: &str, report: &mut Report) {
   report.model_requests += model.requests;
 }
 
+/// a path text over an alphabet weighted towards what matters: separators, dots, a few letters, an odd byte now and then
+fn random_path_text(rng: &mut Rng) -> Vec<u8> {
+  let n = rng.below(14) as usize;
+  let mut v = Vec::with_capacity(n);
+  for _ in 0..n {
+    v.push(match rng.below(16) {
+      0..=4 => b'/',
+      5..=8 => b'.',
+      9 | 10 => b'a',
+      11 => b'b',
+      12 => b' ',
+      13 => b'-',
+      14 => 0xff,
+      _ => *rng.pick(&[b'~', b'\\', b':', b'\n', 0xc3, b'0']),
+    });
+  }
+  v
+}
+
+fn codes_line(v: &[String]) -> String {
+  if v.is_empty() { "-".into() } else { v.join(",") }
+}
+
+/// The path model against the real `std::path` and `lexiclean` crate, in process (hooks `path_components`,
+/// `path_lexiclean`, `path_join`): components of a text, the text collected back, lexical cleaning, joining.
+pub fn algebra(ctx: &Ctx, report: &mut Report) {
+  report.correspondences.push("paths.algebra: Path::components, collect::<PathBuf>, lexiclean and join of the real std::path / lexiclean crate = Imdlv.Paths.{comps, render, lexiclean, joinC} (in process, random path texts)".into());
+  let texts: Vec<(Vec<u8>, Vec<u8>)> = match super::replay_cases(ctx) {
+    Some(rc) => rc.iter().filter_map(|v| v.get("path_algebra")).filter_map(|w| Some((unhex(w.get("a")?.as_str()?)?, unhex(w.get("b")?.as_str()?)?))).collect(),
+    None => {
+      let mut rng = Rng::new(ctx.seed).fork(0x9A7A1);
+      let mut v: Vec<(Vec<u8>, Vec<u8>)> = ["", ".", "..", "/", "//", "/.", "/..", "./", "a", "a/", "a/.", "a/..", "./a", "../a", "a/../..", "/a/../..", "a//b", "a/./b", ".a", "a.", "...", "/../a", "./..", "././.", "a/b/../../..", " "]
+        .iter().flat_map(|a| [("", *a), (*a, ""), (*a, "b"), (*a, "/b"), (*a, "./b"), (*a, "../b"), ("x/y", *a)]).map(|(a, b)| (a.as_bytes().to_vec(), b.as_bytes().to_vec())).collect();
+      for _ in 0..ctx.n(6000, 300_000) {
+        v.push((random_path_text(&mut rng), random_path_text(&mut rng)));
+      }
+      v
+    }
+  };
+  let mut model = Model::spawn(&ctx.vmodel);
+  for (a, b) in &texts {
+    let case = json!({"path_algebra": {"a": hex(a), "b": hex(b)}});
+    report.case(Some(crate::report::fnv(&[a.as_slice(), b"\x00", b.as_slice()].concat())));
+    let (comps, collected) = imdl::verif::path_components(a);
+    let real = [
+      ("comps", format!("ok {}", codes_line(&comps)), format!("C03 comps {}", hex(a))),
+      ("render", format!("ok {}", hex(&collected)), format!("C03 pnorm {}", hex(a))),
+      ("lexiclean", format!("ok {}", codes_line(&imdl::verif::path_lexiclean(a))), format!("C03 lexiclean {}", hex(a))),
+      ("join", format!("ok {}", codes_line(&imdl::verif::path_join(a, b))), format!("C03 join {} {}", hex(a), hex(b))),
+    ];
+    report.hit(&format!("path-algebra:components={}", comps.len().min(6)));
+    for (what, want, line) in real {
+      let ans = model.ask(&line);
+      if ans != want {
+        report.fail("model", &format!("paths.{what}"), case.clone(), format!("{what}: implementation `{want}`, model `{ans}`"));
+        break;
+      }
+    }
+  }
+  report.model_requests += model.requests;
+}
